@@ -82,6 +82,7 @@ pub fn run(ctx: &Ctx, rep: &mut Report) {
     crate::engine::run_list(rep, "rare_sampler_seeds", &rare, check);
     rare_seed_maxima(rep.stats("rare_sampler_seeds"));
     crate::props::history::run(ctx, rep, 2500, 60000);
+    crate::props::c03::cold_start(ctx, rep, &["generated keys differ", "panic"]);
 }
 
 pub fn replay(_ctx: &Ctx, sub: &str, case: &Value) -> Option<CheckResult> {
